@@ -187,6 +187,12 @@ func runCrash(dir string, seed uint64, tier string) {
 					if got != want || ncleanup != 1 {
 						fail(id, "cleanup-not-finished-on-restart", "a channel persisted while cleaning up did not finish cleanup (once) when restarted", label,
 							fmt.Sprintf("boundary %d: status=%s cleanups=%d", i, statusName(got), ncleanup), statusName(want))
+						res.fail(monitorFailure{Property: "C09", CaseID: id, Signature: "cleanup-not-finished-on-restart", What: "a channel persisted while cleaning up did not finish cleanup (once) when restarted", Input: label,
+							Observed: fmt.Sprintf("boundary %d: status=%s cleanups=%d", i, statusName(got), ncleanup), Expected: statusName(want)})
+						if raw.Status == datatransfer.Completing {
+							res.fail(monitorFailure{Property: "C01", CaseID: id, Signature: "completing-channel-does-not-settle-after-crash", What: "a channel that had sent / received its final Complete and was persisted in Completing does not settle in Completed when the process comes back", Input: label,
+								Observed: statusName(got), Expected: "Completed"})
+						}
 					}
 					res.hist("restart-in-cleanup:" + statusName(raw.Status))
 				}
